@@ -71,8 +71,10 @@ class Markdown:
     def _indented(self, *, spaces: int):
         """Temporarily increment indentation by one"""
         self._indent_trace.append(spaces)
-        yield
-        self._indent_trace.pop(-1)
+        try:
+            yield
+        finally:
+            self._indent_trace.pop(-1)
 
     def _get_indent(self, *, incr: int = 0) -> str:
         """Get current indentation, optionally incremented"""
